@@ -6,6 +6,7 @@ await of a coroutine call, async-with enter/exit) are summarised per input state
 """
 from __future__ import annotations
 
+import ast
 from typing import Any, Callable, Dict, Hashable, Iterable, List, Optional, Set, Tuple
 
 from .cfg import NORMAL_KINDS, Analyzer, Label, Node
@@ -23,6 +24,8 @@ def runs_callee(n: Node):
     if n.op == "await" and n.awaited is not None and n.awaited.kind == "pkg":
         return n.awaited
     if n.op == "call" and n.callee is not None and n.callee.kind == "pkg" and n.callee.targets and all(not t.is_async for t in n.callee.targets):
+        if any(isinstance(x, (ast.Yield, ast.YieldFrom)) for t in n.callee.targets for x in ast.walk(t.node) if not isinstance(x, (ast.Lambda,))):
+            return None  # calling a generator function runs none of its body
         return n.callee
     if n.op in ("enter", "exit_ctx") and n.callee is not None and n.callee.kind == "pkg":
         return n.callee
